@@ -75,19 +75,23 @@ Theorem C29_integrate_eq_merge : forall (d : adoc) (appl_e cs : list change),
              heads_of applied_d = heads_of (applied e').
 Proof. exact integrate_eq_merge. Qed.
 
-(* a defect of the scoped path, in the model of the op set's index columns (Crdt/Txn.v,
-   add_succ_with_undo / reset_top): an increment names every op its scope shows; the counter among
-   them is marked as the register's top op without a look at its visible flag.  When the document
-   has deleted those ops since (they are not visible), the columns say "top, not visible" and
-   reset_top — run by every local op of a scoped transaction — hits its assertion (Panic).
-   Confirmed on the implementation: known finding `panic|txn|call|scoped|increment`. *)
-Theorem C29_scoped_increment_expose_refuted :
-  exists c ins c' us,
-    NoDup (map si_pos ins) /\ (forall i, In i ins -> wf_ins c i) /\
-    add_succ_with_undo c ins = Ok (c', us) /\
-    nth_error (c_top c') 0 = Some true /\ nth_error (c_vis c') 0 = Some false /\
-    reset_top (c_vis c') (c_top c') 0 2 = Panic.
-Proof. exact add_succ_exposes_invisible_refuted. Qed.
+(* the index columns under a scoped transaction (Crdt/Txn.v: add_succ_with_undo / reset_top, as
+   of the repair 9da869ded): an increment names every op its scope shows, also ops the document
+   has superseded since; whatever the inserts, no top flag is left on an op that is not visible
+   ([top_vis], the state in which reset_top's assertion fired before the repair: fixed finding
+   `panic|txn|call|scoped|increment`) *)
+Theorem C29_add_succ_keeps_top_visible : forall (c : cols) (ins : list sins) (c' : cols) (us : list sundo),
+  top_vis c -> add_succ_with_undo c ins = Ok (c', us) -> top_vis c'.
+Proof. exact add_succ_keeps_top_visible. Qed.
+(* non-vacuity, on the columns of the repaired defect (a counter and a concurrent null, both
+   deleted in the document, named by a scoped increment) *)
+Example C29_add_succ_keeps_top_visible_nonvacuous :
+  let c := mkCols [1; 1] [false; false] [None; None] [false; false] [((8, [1]), None); ((12, [1]), None)] in
+  let ins := [mkSI (20, [3]) 0 (Some 3%Z) 1 1 (Some 1); mkSI (20, [3]) 1 None 1 2 (Some 1)] in
+  top_vis c /\
+  exists c' us, add_succ_with_undo c ins = Ok (c', us) /\ c_top c' = [false; false] /\
+                reset_top (c_vis c') (c_top c') 0 2 = Ok [false; false] /\ undo_succ c' us = Ok c.
+Proof. exact scoped_increment_fixed. Qed.
 
 (* non-vacuity: actor [2] made two changes; a transaction isolated at the FIRST one (not the
    current heads) is written by the concurrency-level actor, reads a = 1 (not 2), and its put
